@@ -453,6 +453,42 @@ def _own_validity_test(cx: Cx, c, tgt):
     return (chars - ref, ref - chars)
 
 
+def _uriref_as_dict_key(cx: Cx, ob: Ob, s, conv, arg) -> None:
+    """The bound term reaches ``converter.parse_uri`` as an rdflib ``URIRef``.  A URIRef never equals a plain ``str``
+    (``Identifier.__eq__`` compares the types first), so ``uri in <dict keyed by str>`` /
+    ``<dict>.get(uri)`` / ``<dict>[uri]`` in parse_uri never finds it, while the same text given as ``str`` does (the
+    trie walks the characters and is not affected): a branch of parse_uri decided that way makes the service answer
+    differently from ``expand_all(compress(str(u)))``."""
+    if not any(op(c[1]) == "attr" and c[1][1] == conv and c[1][2] == "parse_uri" and c[2][:1] == (arg,) for c, _, _ in s.calls()):
+        return
+    pu = cx.fn("curies.api.Converter.parse_uri", ob.id)
+    ps = cx.summary(pu, ob.id)
+    me_ = ("param", pu.self_name)
+    u_ = ("param", pu.params[1].name)
+    DICTS = ("reverse_prefix_map", "prefix_map", "synonym_to_prefix", "pattern_map", "bimap")
+    seen = set()
+    for ev, ctx in ps.walk():
+        if ev.kind != "guard":
+            continue
+        for x in subterms(ev.a):
+            hit = None
+            if op(x) == "cmp" and x[1] in ("in", "not in") and x[2] == u_ and op(x[3]) == "attr" and x[3][1] == me_ and x[3][2] in DICTS:
+                hit = x[3][2]
+            elif op(x) == "call" and callee_name(x) in ("get", "__getitem__", "__contains__") and op(x[1]) == "attr" and op(x[1][1]) == "attr" and x[1][1][1] == me_ and x[1][1][2] in DICTS and x[2][:1] == (u_,):
+                hit = x[1][1][2]
+            elif op(x) == "item" and x[2] == u_ and op(x[1]) == "attr" and x[1][1] == me_ and x[1][2] in DICTS:
+                hit = x[1][2]
+            if hit and (hit, ev.line) not in seen:
+                seen.add((hit, ev.line))
+                ob.violate(
+                    pu.qualname,
+                    where(pu, ev.line),
+                    f"parse_uri decides a branch by looking its raw argument up in self.{hit} (`{show(x)[:60]}`): the mapping service hands it an rdflib URIRef, which never equals the plain-str keys of that dict - the branch is taken for 'u' and not for URIRef('u'), so the service's answer for u is not what expand_all(compress(u)) gives",
+                    witness="URIRef('http://ex/') in {'http://ex/': 'ex'} is False",
+                    detail=f"uriref-as-str-key:{hit}",
+                )
+
+
 @obligation("C18-D4", "_expand_pair_all = parse_uri(u, return_none=True) -> [] on None, else expand_pair_all(prefix, identifier, strict=True) filtered by rdflib's _is_valid_uri", floor=1)
 def d4(cx: Cx, ob: Ob) -> None:
     fn = cx.fn(f"{A}.MappingServiceGraph._expand_pair_all", ob.id)
@@ -469,6 +505,7 @@ def d4(cx: Cx, ob: Ob) -> None:
     if not through:
         ob.funnel(fn.qualname, fn.where, "_expand_pair_all answers without converter.parse_uri / expand_pair_all", False, "converter.parse_uri / expand_pair_all")
         return
+    _uriref_as_dict_key(cx, ob, s, conv, arg)
     for t, ctx in s.returns():
         line = ctx.path.out[2]
         ob.site(f"{where(fn, line)} {fn.qualname}", f"return {show(t)[:80]}")
